@@ -232,8 +232,11 @@ SpellingFamilies(z) ==
     \* the same argument list in different brackets
     << Tp(<<W("t"), W("a1")>>), Ar(<<W("t"), W("a1")>>), Lk(<<W("t"), W("a1")>>, <<>>) >> }
 OrdPairs(f) == { <<f[w[1]], f[w[2]]>> : w \in { v \in (1..Len(f)) \X (1..Len(f)) : v[1] # v[2] } }
-\* triples over the first three members (the line-break layouts) of the layout families
-Triples(f) == { <<f[w[1]], f[w[2]], f[w[3]]>> : w \in { v \in (1..3) \X (1..3) \X (1..3) : v[1] # v[2] /\ v[2] # v[3] } }
+\* triples over the first three members (the line-break layouts) of the layout families;
+\* over all members in the wide universes "PAIRT" / "HISTT" (thorough tier)
+Wide == Universe \in {"PAIRT", "HISTT"}
+Triples(f) == LET I == 1..(IF Wide THEN Len(f) ELSE 3) IN
+              { <<f[w[1]], f[w[2]], f[w[3]]>> : w \in { v \in I \X I \X I : v[1] # v[2] /\ v[2] # v[3] } }
 Tuples(z) == UNION ({ OrdPairs(f) \cup Triples(f) : f \in LayoutFamilies(z) } \cup { OrdPairs(f) : f \in SpellingFamilies(z) })
 \* the constructs of a tuple on one page: in running text, as paragraphs, one per table cell
 RECURSIVE Joined(_, _)
@@ -264,8 +267,8 @@ Pages ==
     [] Universe = "NEST" -> Nested(0) \cup InCell(0)
     [] Universe = "EL" -> Elements(0)
     [] Universe = "CALL" -> CallPages(0)
-    [] Universe = "PAIR" -> PairPages(0)
-    [] Universe = "HIST" -> Histories(0)      \* here `page` is a history: Seq([op, page])
+    [] Universe \in {"PAIR", "PAIRT"} -> PairPages(0)
+    [] Universe \in {"HIST", "HISTT"} -> Histories(0)      \* here `page` is a history: Seq([op, page])
     [] Universe = "FILE" -> FilePages(0)
 
 \* `done` only keeps TLC from evaluating the invariant twice per structure
@@ -320,7 +323,7 @@ GenInvH ==
 \* Demo: with a cookie key that is not injective (what-if switches of ParserStruct) a construct is
 \* decoded with the arguments of a nearly equal one: TLC finds the page / the history
 DemoKey(dev) ==
-  done \/ IF Universe = "HIST" THEN HistLaw(HistRun(page, 1, <<>>, dev))
+  done \/ IF Universe \in {"HIST", "HISTT"} THEN HistLaw(HistRun(page, 1, <<>>, dev))
           ELSE Equiv(Run(Render(page), dev).stack[1], TreeOf(page))
 DemoKeyLineBreaks == DemoKey({"KeyDropsEdgeLineBreaks"})
 DemoKeyTrims == DemoKey({"KeyTrimsArguments"})
